@@ -272,7 +272,7 @@ def main(argv=None):
         import subprocess
         try:
             r = subprocess.run(['bash', os.path.join(ROOT, 'selftest', 'lean_check.sh')], capture_output=True, text=True, timeout=5400)
-            lean = dict(lemmas=list(mod.USES_LEAN_LEMMAS), exit=r.returncode, output=r.stdout.strip().splitlines()[-4:])
+            lean = dict(lemmas=list(mod.USES_LEAN_LEMMAS), exit=r.returncode, output=r.stdout.strip().splitlines()[-6:])
             if r.returncode != 0:
                 print('CHECKER-ERROR lean re-check of the lemma files failed: %s' % r.stdout[-800:])
                 return 3
